@@ -285,3 +285,28 @@ Fixpoint pdom_detailed (j : json) : bool :=
   | _ => false
   end.
 
+
+(* ---------- the BasicConversions schema: what it can express, declaratively ---------- *)
+(* datum -> JSON: map keys are integers or byte strings and every key holds exactly one value, at every depth
+   (plutus_data.rs:1055-1075); everything else converts *)
+Definition pbasic_key_ok (k : pd) : bool := match k with PInt _ | PBytes _ => true | _ => false end.
+Fixpoint pbasic_dom (p : pd) : bool :=
+  match p with
+  | PConstr _ fs => forallb pbasic_dom fs
+  | PMap l => ppairs_all pbasic_key_ok (fun vs => match vs with [v] => pbasic_dom v | _ => false end) l
+  | PList l => forallb pbasic_dom l
+  | PInt _ | PBytes _ => true
+  end.
+(* JSON -> datum: no null / bool, number literals that num-bigint parses, strings starting with 0x must be hex
+   (plutus_data.rs:885-907, 923-945) *)
+Definition pbasic_str_ok (s : bytes) : bool :=
+  if starts_with k_0x s then is_some (unhex (skipn 2 s)) else true.
+Fixpoint pbasic_json_dom (j : json) : bool :=
+  match j with
+  | JNull | JBool _ => false
+  | JInt _ | JNegZero => true
+  | JFloat lit => is_some (parse_bigint lit)
+  | JStr s => pbasic_str_ok s
+  | JArr l => forallb pbasic_json_dom l
+  | JObj l => obj_all pbasic_str_ok pbasic_json_dom l
+  end.
